@@ -1326,3 +1326,41 @@ def run_first_last_kind(P, rep, rule="R-STRKIND"):
             rep.viol(rule, site, P.where(fn), "the string branch does not build its result with Value::scalar")
         else:
             rep.ok(rule, site, P.where(fn), "string branch always yields Value::scalar(..)")
+
+
+# ---------------------------------------------------------------------------------------
+# R-ONCELOOKUP: escape_once looks for an existing entity after EVERY `&`
+
+def run_once_lookup(P, rep, rule="R-ONCELOOKUP"):
+    """In html::escape the call of nr_escaped (is this `&` already the start of an entity?) is control-dependent only on the
+    character being `&`, on the once-mode flag and on the skip counter being zero: no length / position test decides whether
+    the lookup happens (a bound such as `remaining > 3` silently excludes an entity at the very end of the input)."""
+    fn = P.fn_by_key("liquid_lib::stdlib::filters::html::escape")
+    calls = [(bi, t) for bi, t in P.calls(fn) if t.get("f") and t["f"]["id"].endswith("html::nr_escaped")]
+    site = "escape nr_escaped lookup"
+    if len(calls) != 1:
+        rep.viol(rule, site, P.where(fn), "expected one nr_escaped call in escape, found %d" % len(calls))
+        return
+    bi, t = calls[0]
+    bad = []
+    for di, b in enumerate(fn.blocks):
+        tt = b["t"]
+        if tt["k"] != "switch" or di == bi or not P.dominates(fn, di, bi):
+            continue
+        ol = op_local(tt["o"])
+        if not ol:
+            continue
+        for st in b["s"]:
+            if st[0] == "a" and st[1][0] == ol[0] and st[2]["k"] == "bin" and st[2]["op"] in ("Lt", "Le", "Gt", "Ge", "Eq", "Ne"):
+                a, c = st[2]["a"], st[2]["b"]
+                zero = lambda o: o[0] == "k" and isinstance(o[1], dict) and o[1].get("val") == 0  # noqa: E731
+                la = op_local(a)
+                ty = P.local_ty(fn, la[0]) if la else ""
+                if ty in ("usize", "isize", "u64", "i64", "u32", "i32") and not (zero(a) or zero(c)):
+                    bad.append(st[3] if len(st) > 3 else fn.line)
+    if bad:
+        rep.viol(rule, site, P.where(fn, bad[0]),
+                 "whether escape_once looks for an existing entity after `&` depends on a length/position comparison (line %d): an entity near the end of the "
+                 "input is not recognised and gets escaped again" % bad[0])
+    else:
+        rep.ok(rule, site, P.where(fn, t["line"]), "the lookup depends only on the character, the once flag and the skip counter")
